@@ -439,6 +439,7 @@ class Prop(object):
             sets = [tuple(only)]
         failed = {'pgpy': {}, 'ref': {}}
         base_stage = {}
+        base_types = set()
         if only is not None and tuple(only) != ():
             # a replay needs the baseline and single-option verdicts to classify the failure
             sets = [()] + ([(n,) for n in only] if len(only) > 1 else []) + sets
@@ -484,6 +485,23 @@ class Prop(object):
                 base_stage['pgpy'] = stage
             if stage and len(st) == 1:
                 failed['pgpy'][st[0]] = stage
+            # nothing that was not asked for: the signatures of this unit are made one after the other on the same live key objects, so an option of an
+            # earlier call must not show up in a later one (subpacket types beyond those of the option-less signature and of the requested options)
+            if stage is None:
+                try:
+                    psx = rsig.parse_body(wire.read_packet(S.sig_packet_bytes(o['sig']))['body'], strict=False)
+                    have = {sp['type'] for sp in psx['hashed_sp'] + psx['unhashed_sp']}
+                    if st == ():
+                        base_types = have
+                    else:
+                        implied = {sp['type'] for sp in wire.read_subpackets(self._ref_option_area([n for n in st if n not in ('sensitive', 'no_issuer_fpr')]))}
+                        extra_types = have - base_types - implied
+                        if extra_types:
+                            r.outcomes['pgpy-made:unrequested'] += 1
+                            r.viol('pgpy-made', {'stage': 'unrequested', 'types': sorted(extra_types)}, one,
+                                   '%s: the signature carries subpackets of types %s that were not requested' % (label, sorted(extra_types)))
+                except wire.WireError:
+                    pass
             st_ref = [n for n in st if n != 'sensitive']
             if 'no_issuer_fpr' in st or scn == 'timestamp' and st:
                 continue
